@@ -28,7 +28,7 @@ pub struct EnvExec<'a> {
 
 pub enum Pick {
     /// A task was polled once.
-    Task(usize),
+    Task,
     /// The environment's next action was chosen (the caller performs it).
     Env,
     /// Nothing is runnable and the environment has nothing left.
@@ -89,6 +89,6 @@ impl<'a> EnvExec<'a> {
         if let Poll::Ready(()) = slot.fut.as_mut().unwrap().as_mut().poll(&mut cx) {
             slot.fut = None;
         }
-        Pick::Task(id)
+        Pick::Task
     }
 }
